@@ -467,6 +467,11 @@ Definition naming_b (r : rule) (s : str) : outcome str :=
   | RCamel => match pascal true s with [] => Ok s | c :: rest => Ok (low c :: rest) end
   | _ => apply_to_field_b r s
   end.
+(* the default branch of compute_field_name / compute_parameter_name: the configured default_field_case /
+   default_parameter_case (any string; an unknown convention name falls back to camelCase), applied
+   through apply_naming_convention *)
+Definition default_case_b (configured : str) (name : str) : outcome str :=
+  naming_b (match rule_of_str configured with Some r => r | None => RCamel end) name.
 (* NamingContext::event_name_to_function (repaired): every character that is not ASCII alphanumeric
    becomes one underscore, then PascalCase *)
 Definition ascii_alnum (b : ascii) : bool := ascii_alpha b || ((48 <=? byte_n b)%N && (byte_n b <=? 57)%N).
